@@ -132,6 +132,7 @@ type Controller struct {
 	locals    map[string]any
 	timeFires int
 	marked    bool
+	counters  map[string]int64
 }
 
 var epoch = time.Unix(1_000_000_000, 0)
@@ -806,6 +807,7 @@ type Result struct {
 	Leaked   bool
 	VTime    int64
 	Marked   bool
+	Counters map[string]int64
 }
 
 // RunOnce executes body as thread 0 under a fresh controller following prefix.
@@ -836,7 +838,7 @@ func RunOnce(cfg Config, prefix []uint16, expect []Point, body func()) *Result {
 		leaked = true
 	}
 	active.Store(nil)
-	return &Result{Trace: c.trace, Failure: c.failure, Obs: c.obs, Steps: c.steps, Blocked: c.Blocked, Switches: c.Switches, Threads: len(c.threads), Leaked: leaked, VTime: c.now, Marked: c.marked}
+	return &Result{Trace: c.trace, Failure: c.failure, Obs: c.obs, Steps: c.steps, Blocked: c.Blocked, Switches: c.Switches, Threads: len(c.threads), Leaked: leaked, VTime: c.now, Marked: c.marked, Counters: c.counters}
 }
 
 // Aborting reports whether the current execution is being torn down (shim releases become no-ops).
@@ -854,4 +856,14 @@ func ChooseFree(kind string, n int) int {
 		return 0
 	}
 	return c.choice(kind, n, costAllFree)
+}
+
+// Count adds to a named per-execution counter that the explorer sums over all executions.
+func Count(name string, n int64) {
+	if c := active.Load(); c != nil {
+		if c.counters == nil {
+			c.counters = map[string]int64{}
+		}
+		c.counters[name] += n
+	}
 }
